@@ -42,7 +42,7 @@ CHECKS = {
    note="Trusted: the SimSocket stub (validated against real loopback sockets by `./check selftest fidelity`; socket API it does not model "
         "is a HARNESS-ERROR, never a violation), the reference model (50 lines), single-threaded use, call-backs that do not mutate the rule "
         "tables. Not covered: serial/ROS/OPC bridges, send-side errors, time-out 0, exhaustive depth-5 enumeration (a model-checking clause; "
-        "this family samples). Sensitivity: own mutants, 10 independently seeded changes and 25 reviewer-written variants "
+        "this family samples). Sensitivity: own mutants, 15 independently seeded changes and 25 reviewer-written variants "
         "(`./check selftest mutants|seeded|variants C19`).",
    technique="deterministic simulation: virtual-clock UDP network + seeded history/fault search + per-step refinement against a reference model"),
  "C16": dict(
@@ -52,7 +52,8 @@ CHECKS = {
           "samples), records every generator/distance/collision call at the call-back seams while the tree grows, and afterwards checks "
           "the recorded growth history against an independent brute-force nearest-neighbour replay (root, acyclic reachability, cost "
           "bookkeeping incl. finiteness, free edges, min/max connection distance at insertion, cheapest free parent among the examined, "
-          "path, tree size), across one or two calls on the same planner.",
+          "path, tree size), across one to three calls on the same planner; in the built-in pipeline the planner's metric itself is "
+          "compared at every call with an independent evaluation of the documented distance mode.",
           "DESIGN.md section 3"),
    note="Trusted: rtree/libspatialindex as a real component (its tie order is accepted, not predicted), the brute-force reference, float "
         "tolerance 1e-9 on cost sums. No clock, network, disk or crash exists in this component and none is claimed.",
@@ -65,8 +66,8 @@ CHECKS = {
           "interleaved with moves, tool changes, limit and tolerance changes) over bundled URDF arms and random chains are checked after "
           "every call: success => FK(theta) within the configured tolerances (independent error computation), in limits, state = solution; "
           "failure => reported tool pose = FK(stored joints) (also after move(stationary)); near-solution start => success; the vector "
-          "handed to the caller is not the arm's own state array. Three genuine numerical findings are recorded as known findings with "
-          "narrow predicates and a committed failing trace each.", "DESIGN.md sections 4, 10, 13"),
+          "handed to the caller is not the arm's own state array; a call that raises leaves a coherent arm coherent. Six genuine numerical "
+          "findings of the unchanged library are recorded as known findings with narrow predicates and a committed failing trace each.", "DESIGN.md sections 4, 10, 13"),
    note="Trusted: the arm's own FK (C05's business), NumPy/SciPy for the independent error twist, Numba-compiled kernels as real components. "
         "Only the restart policy/state write-back is schedule-dependent; goals/arms/tolerances are sampled inputs.",
    technique="deterministic simulation: simulator-owned PRNG (scripted restart schedule) + seeded op-history search + per-call oracle"),
